@@ -410,6 +410,11 @@ def emit_function(root, c, mode, extra_fmt_fns):
     name = fn.name
     attrs = list(c.attrs)
     spec = c.spec.rstrip('\n')
+    if mode != 'assume' and not any('exec_allows_no_decreases_clause' in a for a in attrs):
+        # a loop or recursion that has no contract (e.g. newly added code) is then verified as "unknown effect"
+        # (its obligations fail) instead of being rejected by the front end; every decreases clause that IS
+        # given by a contract is still checked
+        attrs.append('#[verifier::exec_allows_no_decreases_clause]')
     if mode == 'assume':
         attrs.append('#[verifier::external_body]')
         body = '{ unimplemented!() }'
